@@ -55,3 +55,24 @@ Theorem C09_judge_camion_accepts_exactly_the_specification :
     JudgeComplete2.camion_spec m n M rc1 v viol rc2 was Sg viol2 rc3 v' rc4 was2 S2.
 Proof. exact JudgeComplete2.judge_camion_iff. Qed.
 Print Assumptions C09_judge_camion_accepts_exactly_the_specification.
+
+(* ---------- every size: supports certified regular.  The case carries a matrix N with the input's support that is certified
+   totally unimodular (network matrix with its digraph, or series-parallel).  A matrix accepted as a +-1 row/column scaling of N
+   really is one (the signs are verified entry by entry) and is therefore totally unimodular; an accepted `camion_cert` record
+   has a signed output that IS totally unimodular and a "yes" of the signedness test only for a totally unimodular input ---------- *)
+From Cmr Require GraphModel TuNetModel CamionCertModel CamionCertProofs RelModel.
+Theorem C09_scalings_of_a_TU_matrix_are_TU : forall m n N M,
+  CamionCertModel.is_scaling_of m n N M = true -> tu_bf m n M = tu_bf m n N.
+Proof. exact CamionCertProofs.is_scaling_of_tu. Qed.
+Print Assumptions C09_scalings_of_a_TU_matrix_are_TU.
+
+Theorem C09_certified_support_judge_sound : forall rec m n M rc1 v viol rc2 was Sg viol2 rc3 v' rc4 was2 S2 mN nN N w rest,
+  CamionCertModel.camion_cert_input rec =
+    Some (((m, n, M), (rc1, v, viol), (rc2, was, Sg, viol2), (rc3, v'), (rc4, was2, S2), (mN, nN, N), w), rest) ->
+  CamionCertModel.camion_certified m n M mN nN N w = true ->
+  CamionCertModel.judge_camion_cert rec = 0 ->
+  rc1 = 0 /\ rc2 = 0 /\ tu_bf m n N = true /\
+  exists Sm, Sg = Some (m, n, Sm) /\ CamionCertModel.is_scaling_of m n N Sm = true /\ tu_bf m n Sm = true /\
+             (v = 1 \/ v = 0) /\ (v = 1 <-> CamionCertModel.is_scaling_of m n N M = true) /\ (v = 1 -> tu_bf m n M = true).
+Proof. exact CamionCertProofs.judge_camion_cert_sound. Qed.
+Print Assumptions C09_certified_support_judge_sound.
